@@ -183,6 +183,8 @@ fn func_random(ctx: &EvalContext, args: &[Expr]) -> Result<i64, ExprError> {
         // The range 1..max is empty
         return Err(ExprErrorKind::EmptyRandomRange(max).into());
     }
+    #[cfg(feature = "verif-hooks")]
+    crate::verif_hooks::log_bound(max);
     Ok(ctx.random(1..max))
 }
 
